@@ -71,7 +71,7 @@ def run(ctx):
         n2 = 0
         if not ctx.quick:
             _, n2 = gen("ValidOps_len2.cfg", workers=8)          # every history of length 2 on one generated input
-        res3, n3 = gen("ValidOps_sim.cfg", workers=4, simulate="num=%d" % (15 if ctx.quick else 1500), depth=6, seed=ctx.seed)
+        res3, n3 = gen("ValidOps_sim.cfg", workers=4, simulate="num=%d" % (15 if ctx.quick else 1000), depth=6, seed=ctx.seed)
         ev.sample(json.loads(lines[0]))
         ev.sample(json.loads(lines[-1]))
 
